@@ -4,6 +4,7 @@ import (
 	"fmt"
 	"go/constant"
 	"go/token"
+	"go/types"
 	"strings"
 
 	"fpcheck/internal/core"
@@ -79,10 +80,9 @@ func runC17(c *core.Ctx) {
 	// which parameter of the generic constructor is the method: the one whose captured value reaches DoNewRequest*'s method parameter
 	methodParam := map[*ssa.Function]int{}
 	for _, g := range generic {
-		for i, prm := range g.Params {
-			if prm.Name() == "method" {
-				methodParam[g] = i
-			}
+		// (simpleAPISelf, method, relativeURL, …): exported signature, identified by position and type, not by name
+		if len(g.Params) > 2 && c17isString(g.Params[1].Type()) {
+			methodParam[g] = 1
 		}
 	}
 	// ---- R1: SimpleHTTP verb methods + DoNewRequest* pass-through
@@ -461,10 +461,8 @@ func c17effect(p *core.Prog, g, perCall, eff, fold *ssa.Function, doNew map[stri
 	// method = captured method parameter of g
 	okM := false
 	mv := toG(args[3], rstack)
-	for _, prm := range g.Params {
-		if prm.Name() == "method" && mv == ssa.Value(prm) {
-			okM = true
-		}
+	if len(g.Params) > 2 && c17isString(g.Params[1].Type()) && mv == ssa.Value(g.Params[1]) {
+		okM = true
 	}
 	if !okM {
 		return false, "the HTTP method passed to the request is not the constructor's method parameter"
@@ -477,10 +475,8 @@ func c17effect(p *core.Prog, g, perCall, eff, fold *ssa.Function, doNew map[stri
 	}
 	relOK, ppOK := false, false
 	rel := toG(u.Call.Args[1], ustack)
-	for _, prm := range g.Params {
-		if prm.Name() == "relativeURL" && rel == ssa.Value(prm) {
-			relOK = true
-		}
+	if len(g.Params) > 2 && c17isString(g.Params[2].Type()) && rel == ssa.Value(g.Params[2]) {
+		relOK = true
 	}
 	if pv, pst := core.Up(u.Call.Args[2], ustack); len(pst) == 0 && capturedBinding(perCall, eff, core.Path(pv)) == ssa.Value(perCall.Params[0]) {
 		ppOK = true
@@ -516,10 +512,8 @@ func c17effect(p *core.Prog, g, perCall, eff, fold *ssa.Function, doNew map[stri
 		// content type: the constructor's parameter, or the serializer's second result (multipart)
 		okCT := false
 		if cv := toG(args[6], rstack); cv != nil {
-			for _, prm := range g.Params {
-				if prm.Name() == "contentType" && cv == ssa.Value(prm) {
-					okCT = true
-				}
+			if len(g.Params) > 3 && c17isString(g.Params[3].Type()) && cv == ssa.Value(g.Params[3]) {
+				okCT = true
 			}
 		}
 		if !okCT {
@@ -834,4 +828,10 @@ func c17poolSelftest() string {
 		}
 	}
 	return ""
+}
+
+
+func c17isString(t types.Type) bool {
+	b, ok := t.Underlying().(*types.Basic)
+	return ok && b.Kind() == types.String
 }
